@@ -1401,6 +1401,64 @@ def probe_units(ctx, drv, rng, n_cases):
                          "probe:vario-std-bins-counts")
 
 
+def probe_structured_bins(ctx, rng, n_cases):
+    """standard_bins / vario_estimate for STRUCTURED lat-lon meshes (unequal axes): the same bins as for the equivalent point list, which follow the
+    sphere rule, in every unit and for every bin_no / max_dist combination"""
+    import gstools as gs
+    gsc = dict(geo_scales(), miles=3958.8)
+    names = list(gsc)
+    for it in range(n_cases):
+        gname = names[it % len(names)]
+        g = gsc[gname]
+        na, nb = int(rng.integers(2, 7)), int(rng.integers(2, 7))
+        if na == nb:
+            nb += 1
+        la0, lo0 = float(rng.uniform(-80, 40)), float(rng.uniform(-200, 200))
+        lat_ax = la0 + np.sort(rng.uniform(0, 40, size=na))
+        lon_ax = lo0 + np.sort(rng.uniform(0, 60, size=nb))
+        LA, LO = np.meshgrid(lat_ax, lon_ax, indexing="ij")
+        lat, lon = LA.ravel(), LO.ravel()
+        rule, tol_b = rule_max_dist(lat, lon, g)
+        for has_no in (False, True):
+            for has_md in (False, True):
+                bn = int(rng.integers(2, 9)) if has_no else None
+                md = float(g * rng.uniform(0.05, 1.0)) if has_md else None
+                ctx.count(("structured-bins", gname, has_no, has_md), hist=dict(probe="standard_bins structured lat-lon", geo_scale=gname))
+                case = dict(geo_scale=g, lat_axis=[float(v) for v in lat_ax], lon_axis=[float(v) for v in lon_ax], bin_no=bn, max_dist=md)
+                try:
+                    es = gs.standard_bins((lat_ax, lon_ax), latlon=True, mesh_type="structured", geo_scale=g, bin_no=bn, max_dist=md)
+                    eu = gs.standard_bins((lat, lon), latlon=True, geo_scale=g, bin_no=bn, max_dist=md)
+                except Exception as ex:
+                    viol(ctx, "probe: standard_bins raises", "standard_bins(structured lat-lon) raised %r" % (ex,), case, "probe:exception")
+                    continue
+                exp_last = md if has_md else rule
+                t = 1e-15 if has_md else tol_b
+                if not (len(es) == len(eu) and abs(es[-1] - eu[-1]) <= 2 * t * max(math.pi * g, exp_last)
+                        and abs(es[-1] - exp_last) <= t * max(math.pi * g, exp_last) and es[0] == 0.0):
+                    viol(ctx, "probe: standard_bins(latlon, structured mesh)",
+                         "default bins of a structured lat-lon mesh differ from those of the equivalent point list / the sphere rule",
+                         dict(case, last_edge_structured=float(es[-1]), last_edge_points=float(eu[-1]), expected_last_edge=exp_last), "probe:standard-bins-structured")
+                fld = rng.normal(size=(na, nb))
+                kw = {}
+                if has_no:
+                    kw["bin_no"] = bn
+                if has_md:
+                    kw["max_dist"] = md
+                try:
+                    rs = gs.vario_estimate((lat_ax, lon_ax), fld, latlon=True, mesh_type="structured", geo_scale=g, return_counts=True, **kw)
+                    ru = gs.vario_estimate((lat, lon), fld.ravel(), latlon=True, geo_scale=g, return_counts=True, **kw)
+                except Exception as ex:
+                    viol(ctx, "probe: vario_estimate raises", "vario_estimate(structured lat-lon) raised %r" % (ex,), case, "probe:exception")
+                    continue
+                exp = expected_vario(lat, lon, fld.ravel(), np.linspace(0, eu[-1], len(eu)), g)
+                same_bins = agree(rs[0], ru[0], max(exp_last, 1e-300), 8 * max(t, 1e-13))
+                if not same_bins or (exp is not None and not exp["nan"].any() and not (np.array_equal(rs[2], ru[2]) and np.array_equal(ru[2], exp["cnt"]))):
+                    viol(ctx, "probe: vario_estimate(latlon, structured mesh)",
+                         "variogram of a structured lat-lon mesh differs from that of the equivalent point list (bin centres / bin membership)",
+                         dict(case, field=hexl(fld), bin_center_structured=hexl(rs[0]), bin_center_points=hexl(ru[0]),
+                              counts_structured=[int(c) for c in rs[2]], counts_points=[int(c) for c in ru[2]]), "probe:vario-structured")
+
+
 def expected_vario(lat, lon, fld, edges, g):
     """bin the MODEL's great-circle distances (chord of the isometrized points -> great circle); None when a pair is too close to an edge"""
     import gstools as gs
@@ -1416,6 +1474,226 @@ def expected_vario(lat, lon, fld, edges, g):
     cnt = np.array([int(((d >= edges[b]) & (d < edges[b + 1])).sum()) for b in range(len(edges) - 1)])
     nanp = np.array([kernel_hav_arg(lat[a], lon[a], lat[b], lon[b]) > 1.0 for a, b in zip(*iu)])
     return dict(cnt=cnt, nan=nanp)
+
+
+# ---------------------------------------------------------------------------------------------- representation / dim 4
+def alt_representation(rng, lat, lon):
+    """the same points written differently: lon +- 360 k; any longitude at a pole; +-180"""
+    lon2 = lon + 360.0 * rng.choice([-2, -1, 1, 2], size=len(lon))
+    for k in range(len(lat)):
+        if abs(lat[k]) == 90.0:
+            lon2[k] = float(rng.uniform(-540, 540))
+        elif abs(lon[k]) == 180.0 and rng.random() < 0.7:
+            lon2[k] = -lon[k]
+    return lon2
+
+
+def layouts(a):
+    """the same array in other memory layouts / container types"""
+    a = np.asarray(a, dtype=float)
+    big = np.zeros((a.shape[0] * 2, a.shape[1] * 3))
+    big[::2, ::3] = a
+    return {"fortran": np.asfortranarray(a), "strided": big[::2, ::3], "lists": [list(map(float, r)) for r in a],
+            "tuple-of-arrays": tuple(np.array(r) for r in a)}
+
+
+def probe_representation(ctx, rng, n_cases):
+    """every lat-lon entry point is invariant under the representation of a point (lon +- 360 k, longitude at the poles, +-180) to
+    rounding level, and EXACTLY in the exact-kriging sense (data returned with variance 0 at a conditioning location written differently);
+    results are bit-identical for other memory layouts / containers of the same positions; point counts include n == field_dim"""
+    import gstools as gs
+    gsc = dict(geo_scales(), miles=3958.8)
+    names = list(gsc)
+    for it in range(n_cases):
+        gname = names[it % len(names)]
+        g = gsc[gname]
+        temporal = bool((it // 5) % 2)
+        fd = 2 + int(temporal)
+        n = int([fd, fd + 1, 6, 9][int(rng.integers(4))])
+        lat, lon = sep_latlon(rng, n, 8.0)
+        lat[0] = float(rng.choice([90.0, -90.0, lat[0]]))
+        lon[1] = float(rng.choice([180.0, -180.0, 179.999999, lon[1]]))
+        lon[-1] = float(rng.choice([0.0, 360.0, lon[-1]]))
+        lonb = alt_representation(rng, lat, lon)
+        cls = model_classes()[it % 5]
+        ls = float(g * rng.uniform(0.3, 0.9))
+        var = float(rng.uniform(0.5, 2.0))
+        nug = float(rng.choice([0.0, 0.3]))
+        tr = float(10 ** rng.uniform(-0.5, 0.5))
+        tt = rng.uniform(0, 2, size=n) * ls * tr
+        m = cls(latlon=True, temporal=temporal, geo_scale=g, len_scale=ls, var=var, nugget=nug, anis=[1, 1, tr] if temporal else 1.0)
+        A = np.vstack([lat, lon] + ([tt] if temporal else []))
+        B = np.vstack([lat, lonb] + ([tt] if temporal else []))
+        key = ("representation", gname, temporal, n == fd)
+        ctx.count(key, hist=dict(probe="representation invariance", geo_scale=gname, temporal=temporal, n=n))
+        case = dict(model=cls.__name__, geo_scale=g, temporal=temporal, len_scale=ls, var=var, nugget=nug, time_ratio=tr,
+                    pts=hexl(A), pts_other_representation=hexl(B), lat=[float(v) for v in lat], lon=[float(v) for v in lon], lon_other=[float(v) for v in lonb])
+        try:
+            # A. isometrize (rounding of lon * pi/180 for |lon| <= 900: ~ 16 eps on the sphere)
+            ia, ib = m.isometrize(A), m.isometrize(B)
+            if not agree(ia, ib, np.maximum(g, np.abs(ia)), 1e-13 * 64):
+                viol(ctx, "probe: isometrize under another representation of the points", "isometrize depends on the longitude representation",
+                     dict(case, iso=hexl(ia), iso_other=hexl(ib)), "probe:repr-isometrize")
+            for lname, arr in layouts(A).items():
+                if not np.array_equal(m.isometrize(arr), ia):
+                    viol(ctx, "probe: isometrize for another memory layout", "isometrize of the same positions (%s) differs" % lname,
+                         dict(case, layout=lname), "probe:layout-isometrize")
+            # B. vario_estimate
+            if not temporal and n >= 3:
+                fld = rng.normal(size=n)
+                edges = np.sort(rng.uniform(0, math.pi * g, size=4))
+                edges[0] = 0.0
+                exp = expected_vario(lat, lon, fld, edges, g)
+                if exp is not None and not exp["nan"].any():
+                    ra = gs.vario_estimate((lat, lon), fld, edges.copy(), latlon=True, geo_scale=g, return_counts=True)
+                    rb = gs.vario_estimate((lat, lonb), fld, edges.copy(), latlon=True, geo_scale=g, return_counts=True)
+                    if not (np.array_equal(ra[2], rb[2]) and agree(ra[1], rb[1], np.maximum(np.abs(ra[1]), 1.0), 1e-11) and np.array_equal(ra[2], exp["cnt"])):
+                        viol(ctx, "probe: vario_estimate under another representation of the points", "bin membership / estimate depends on the longitude representation",
+                             dict(case, field=hexl(fld), edges=hexl(edges), counts=[int(c) for c in ra[2]], counts_other=[int(c) for c in rb[2]]), "probe:repr-vario")
+                    for lname, arr in layouts(A).items():
+                        rl = gs.vario_estimate(arr, fld, edges.copy(), latlon=True, geo_scale=g, return_counts=True)
+                        if not (np.array_equal(rl[2], ra[2]) and np.array_equal(rl[1], ra[1])):
+                            viol(ctx, "probe: vario_estimate for another memory layout", "vario_estimate of the same positions (%s) differs" % lname,
+                                 dict(case, layout=lname, field=hexl(fld), edges=hexl(edges)), "probe:layout-vario")
+            # C. kriging: data in representation A, targets = the data locations in representation B + the same extra points in both
+            val = rng.normal(size=n)
+            xlat, xlon = gen_latlon(rng, 3, specials=0.0)
+            xt = rng.uniform(0, 2, size=3) * ls * tr
+            XA = np.vstack([xlat, xlon] + ([xt] if temporal else []))
+            XB = np.vstack([xlat, xlon + 360.0 * rng.choice([-1, 1], size=3)] + ([xt] if temporal else []))
+            for kname, mk in (("Simple", lambda c, ex: gs.krige.Simple(m, c, val, mean=0.2, exact=ex)),
+                              ("Ordinary", lambda c, ex: gs.krige.Ordinary(m, c, val, exact=ex))):
+                for exact in (True, False):
+                    ka = mk(A, exact)
+                    tol, cnd = krige_tol(ka, XA, val)
+                    fa, va = ka(np.hstack([B, XA]))
+                    fb, vb = ka(np.hstack([A, XB]))
+                    fc, vc = mk(B, exact)(np.hstack([B, XA]))
+                    ctx.count(("repr-krige", kname, exact, nug > 0, temporal), hist=dict(probe="kriging representation invariance"))
+                    kc = dict(case, krige=kname, exact=exact, val=hexl(val), extra_targets=hexl(XA), cond_number=cnd)
+                    if not (np.abs(fa - fb).max() <= tol and np.abs(va - vb).max() <= tol * (var + nug)
+                            and np.abs(fa - fc).max() <= tol and np.abs(va - vc).max() <= tol * (var + nug)):
+                        viol(ctx, "probe: kriging under another representation of the points",
+                             "%s kriging (exact=%s) depends on the longitude representation of targets / data" % (kname, exact),
+                             dict(kc, field=hexl(fa), field_other=hexl(fb), field_data_other=hexl(fc), var=hexl(va), var_other=hexl(vb)), "probe:repr-krige")
+                    if exact or nug == 0.0:
+                        # exact interpolation: data returned with variance 0, also when the location is written differently
+                        if not (np.abs(fa[:n] - val).max() <= tol and np.abs(va[:n]).max() <= tol * (var + nug)):
+                            viol(ctx, "probe: exact kriging at a data location written differently",
+                                 "%s kriging (exact=%s, nugget %g) does not return the data with variance 0 at a conditioning location given with "
+                                 "another longitude representation" % (kname, exact, nug),
+                                 dict(kc, field_at_data=hexl(fa[:n]), var_at_data=hexl(va[:n])), "probe:repr-exact")
+                    for lname, arr in layouts(A).items():
+                        fl, vl = mk(arr, exact)(np.hstack([B, XA]))
+                        if not (np.array_equal(fl, fa) and np.array_equal(vl, va)):
+                            viol(ctx, "probe: kriging for another memory layout", "kriging with the same conditioning positions (%s) differs" % lname,
+                                 dict(kc, layout=lname), "probe:layout-krige")
+            # D. SRF / CondSRF (inversion-sampled models only: the others use MCMC sampling)
+            if it % 5 < 2:
+                seed = int(rng.integers(1, 10 ** 6))
+                sa = gs.SRF(m, seed=seed, mode_no=32)(A)
+                sb = gs.SRF(m, seed=seed, mode_no=32)(B)
+                if not agree(sa, sb, np.sqrt(var + nug) * 8, 1e-9):
+                    viol(ctx, "probe: SRF under another representation of the points", "SRF depends on the longitude representation",
+                         dict(case, seed=seed, field=hexl(sa), field_other=hexl(sb)), "probe:repr-srf")
+                kr = gs.krige.Ordinary(m, A, val, exact=True)
+                tol, cnd = krige_tol(kr, XA, val)
+                ca = gs.CondSRF(kr, seed=seed, mode_no=32)(np.hstack([B, XA]))
+                cb = gs.CondSRF(gs.krige.Ordinary(m, A, val, exact=True), seed=seed, mode_no=32)(np.hstack([A, XB]))
+                tolc = max(tol, 1e-8) * 8 * (1 + np.sqrt(var + nug))
+                if not (np.abs(ca - cb).max() <= tolc and np.abs(ca[:n] - val).max() <= tolc):
+                    viol(ctx, "probe: CondSRF under another representation of the points",
+                         "CondSRF depends on the longitude representation or does not honour the data at a location written differently",
+                         dict(case, seed=seed, val=hexl(val), field=hexl(ca), field_other=hexl(cb), cond_number=cnd), "probe:repr-condsrf")
+        except Exception as e:
+            viol(ctx, "probe: representation probe raises", "a lat-lon entry point raised %r" % (e,), case, "probe:exception")
+
+
+def probe_dim4(ctx, rng, n_cases):
+    """generated fields of dim >= 4 models (lat-lon + time = 3+1, 3-D + time): (i) sampled directions are unit vectors and isotropic, for every
+    dimension and sample count (incl. size == dim); (ii) the radii |k| of the RandMeth wave vectors follow the model's radial spectral law (KS);
+    (iii) ensemble variogram over seeds for space, time and mixed lags follows the model (Yadrenko chord / time scaled by the last ratio)"""
+    import gstools as gs
+    from gstools.random.rng import RNG
+    from gstools.field.generator import RandMeth
+    for it in range(n_cases):
+        seed = int(rng.integers(1, 10 ** 6))
+        # (i)
+        for dim in (1, 2, 3, 4, 5, 6):
+            for size in (1, dim, 7, 3000):
+                c = RNG(seed).sample_sphere(dim, size)
+                ctx.count(("sphere-sample", dim, size == dim, size >= 1000), hist=dict(probe="sample_sphere", dim=dim))
+                nrm = np.linalg.norm(c, axis=0) if c.shape == (dim, size) else None
+                if nrm is None or not agree(nrm, np.ones(size), 1.0, 1e-12):
+                    viol(ctx, "probe: RNG.sample_sphere unit vectors", "sampled direction vectors do not have shape (dim, size) and unit norm",
+                         dict(seed=seed, dim=dim, size=size, shape=list(c.shape), norms=None if nrm is None else hexl(nrm[:20])), "probe:sample-sphere")
+                    continue
+                if size >= 1000 and dim >= 2:
+                    # E c_i^2 = 1/dim, Var c_i^2 = 2 (dim-1) / (dim^2 (dim+2)); 7 standard errors
+                    se = math.sqrt(2.0 * (dim - 1) / (dim * dim * (dim + 2)) / size)
+                    m2 = (c ** 2).mean(axis=1)
+                    if not np.all(np.abs(m2 - 1.0 / dim) <= 7 * se):
+                        viol(ctx, "probe: RNG.sample_sphere isotropy", "second moments of the sampled directions are not 1/dim",
+                             dict(seed=seed, dim=dim, size=size, second_moments=[float(v) for v in m2], se=se), "probe:sample-sphere-moments")
+        # (ii) + (iii)
+        for kind in ("latlon+time", "3d+time"):
+            cls = [gs.Gaussian, gs.Exponential][it % 2]
+            g = geo_scales()[GEO_NAMES[it % 4]] if kind == "latlon+time" else 1.0
+            ls = float(g * rng.uniform(0.3, 0.6)) if kind == "latlon+time" else float(rng.uniform(0.5, 2))
+            tr = float(10 ** rng.uniform(-0.4, 0.4))
+            var = float(rng.uniform(0.7, 1.5))
+            if kind == "latlon+time":
+                m = cls(latlon=True, temporal=True, geo_scale=g, len_scale=ls, var=var, anis=[1, 1, tr])
+            else:
+                m = cls(dim=4, temporal=True, len_scale=ls, var=var, anis=[1, float(rng.uniform(0.5, 2)), tr], angles=[float(rng.uniform(-1, 1))])
+            nm = 2000
+            gen = RandMeth(m, mode_no=nm, seed=seed)
+            k = np.asarray(gen._cov_sample)
+            r = np.sort(np.linalg.norm(k, axis=0))
+            # radial law: cdf of model.spectral_rad_pdf by trapezoids on a log grid (no closed form for dim 4)
+            grid = np.logspace(-7, 7, 8001) / m.len_scale
+            yy = np.asarray(m.spectral_rad_pdf(grid)) * grid
+            cum = np.concatenate([[0.0], np.cumsum(0.5 * (yy[1:] + yy[:-1]) * np.diff(np.log(grid)))])
+            cdf = np.interp(r, grid, cum / cum[-1])
+            dks = float(max(np.max(np.arange(1, nm + 1) / nm - cdf), np.max(cdf - np.arange(0, nm) / nm)))
+            # Kolmogorov bound for independent samples P(D > 0.073) < 1e-9 at n = 2000; the radii come from an MCMC sampler (dim 4 has no
+            # inversion sampling), whose autocorrelation lowers the effective sample size (measured D <= 0.04): twice the bound
+            crit = 2 * math.sqrt(math.log(2 / 1e-9) / (2 * nm))
+            ctx.count(("wave-vectors", kind, cls.__name__), hist=dict(probe="RandMeth |k| law (dim 4)", kind=kind))
+            case = dict(kind=kind, model=cls.__name__, geo_scale=g, len_scale=ls, var=var, time_ratio=tr, seed=seed, mode_no=nm)
+            if k.shape != (4, nm) or not dks <= crit:
+                viol(ctx, "probe: RandMeth wave vectors of a dim-4 model", "the radii |k| of the sampled wave vectors do not follow the model's radial spectral law "
+                     "(Kolmogorov distance %.3f > %.3f)" % (dks, crit), dict(case, ks=dks, median_k=float(np.median(r)), model_median=float(np.interp(0.5, cum / cum[-1], grid))),
+                     "probe:dim4-wave-vectors")
+            # (iii) ensemble variogram: pairs (0,j) with space, time and mixed lags
+            if kind == "latlon+time":
+                la0, lo0 = float(rng.uniform(-60, 60)), float(rng.uniform(-180, 180))
+                dang = np.degrees(np.array([0.5, 1.0, 2.0]) * ls / g)
+                pts = np.array([[la0, lo0, 0.0]] + [[la0, lo0 + d / max(math.cos(math.radians(la0)), 0.3), 0.0] for d in dang]
+                               + [[la0, lo0, h * ls * tr] for h in (0.5, 1.0, 2.0)] + [[la0 + dang[1] * 0.7, lo0, 0.7 * ls * tr]]).T
+            else:
+                u = rng.normal(size=3)
+                u /= np.linalg.norm(u)
+                pts = np.array([[0, 0, 0, 0.0]] + [list(h * ls * u) + [0.0] for h in (0.5, 1.0, 2.0)]
+                               + [[0, 0, 0, h * ls * tr] for h in (0.5, 1.0, 2.0)] + [list(0.7 * ls * u) + [0.7 * ls * tr]]).T
+            iso = m.isometrize(pts)
+            h = np.linalg.norm(iso[:, 1:] - iso[:, :1], axis=0)
+            gexp = np.asarray(m.variogram(h))
+            N = 400
+            srf = gs.SRF(m, mode_no=100)
+            acc = np.zeros(pts.shape[1] - 1)
+            for s_ in range(N):
+                f = srf(pts, seed=seed + 1 + s_)
+                acc += 0.5 * (f[1:] - f[0]) ** 2
+            gest = acc / N
+            # (f_i - f_0)^2 / 2 has mean gamma and variance ~ 2 gamma^2: 8 standard errors + 0.02 var
+            tolv = 8 * gexp * math.sqrt(2.0 / N) + 0.02 * var
+            ctx.count(("ensemble-variogram", kind, cls.__name__), n=N, hist=dict(probe="ensemble variogram (dim 4)", kind=kind))
+            if not np.all(np.abs(gest - gexp) <= tolv):
+                viol(ctx, "probe: ensemble variogram of a dim-4 field", "the space / time variogram of SRF realisations over %d seeds does not follow the model "
+                     "(chord on the sphere resp. time lag / last ratio)" % N,
+                     dict(case, pts=hexl(pts), iso_lags=[float(v) for v in h], estimated=[float(v) for v in gest], expected=[float(v) for v in gexp],
+                          tolerance=[float(v) for v in tolv]), "probe:dim4-ensemble")
 
 
 # ---------------------------------------------------------------------------------------------- run
@@ -1507,6 +1785,9 @@ def run(ctx):
             stage("corr_holder", corr_holder, ctx, drv, rng, 300 if thorough else 40)
         stage("probe_histories", probe_histories, ctx, rng, 300 if thorough else 40)
         stage("probe_units", probe_units, ctx, drv, rng, 200 if thorough else 30)
+        stage("probe_structured_bins", probe_structured_bins, ctx, rng, 100 if thorough else 15)
+        stage("probe_representation", probe_representation, ctx, rng, 200 if thorough else 30)
+        stage("probe_dim4", probe_dim4, ctx, rng, 6 if thorough else 1)
         ctx.notes.append("stage seconds: %s" % json.dumps(timing))
         C.log("[C13] stage seconds: %s" % json.dumps(timing))
     finally:
